@@ -147,6 +147,41 @@ def differential(rep, tier, seed):
                        json.dumps(sc)), {'scenario': sc, 'parallel': list(sub)})
             rep.nontrivial.add('diff-%d-%s' % (i, ','.join(sub)))
     rep.notes['differential_scenarios'] = n
+    # structural histories with every compartment process and step parallel
+    from vv import store_run as sr, props_store
+    m = 6 if tier == 'quick' else 60
+    keys = ('tree', 'leaves', 'eprocs', 'esteps', 'eseq', 'deps', 'pubP', 'pubS', 'pubF',
+            'pubT', 'hierP', 'hierS', 'hierF')
+    for i in range(m):
+        ini = rng.choice(props_store.INITIALS)
+        ops = sr.random_history(rng, rng.randint(3, 6), props_store.model_of(ini),
+                                names=['a', 'b', 'c'], tpls=('T1', 'T2', 'T3', 'T4'), max_comps=3)
+        if any(o['op'] == 'addex' for o in ops):
+            continue
+        rep.evaluations += 1
+        try:
+            with pr.Watch(120):
+                ser, _ = sr.run_history(ops, initial=ini)
+                par, _ = sr.run_history(ops, initial=ini, parallel=True)
+        except pr.Hang:
+            rep.violation({'kind': 'differential-structural', 'what': 'hang',
+                           'history': json.dumps(ops)},
+                          'structural history hangs with parallel processes: %s from %s'
+                          % (json.dumps(ops), json.dumps(ini)), {'initial': ini, 'ops': ops})
+            continue
+        a = [(r.get('exc'), {k: r['obs'][k] for k in keys}) for r in ser if 'obs' in r]
+        b = [(r.get('exc'), {k: r['obs'][k] for k in keys}) for r in par if 'obs' in r]
+        if a != b:
+            tick = next((j for j, (x, y) in enumerate(zip(a, b)) if x != y), min(len(a), len(b)))
+            texts = [r.get('exc_text') for r in par if r.get('exc')]
+            rep.violation({'kind': 'differential-structural',
+                           'ops': [o['op'] for o in ops[:tick + 1]][-2:]},
+                          'marking processes and steps parallel changes the structural history '
+                          'at tick %d (%s): %s from %s' % (tick, texts, json.dumps(ops),
+                                                           json.dumps(ini)),
+                          {'initial': ini, 'ops': ops})
+        rep.nontrivial.add('sdiff-' + json.dumps(ops))
+    rep.notes['differential_structural_histories'] = m
 
 
 def check(prop, tier, seed):
